@@ -554,7 +554,7 @@ theorem dtConvertStr_date (tzs : List (Str × Int)) (y m d : Nat)
   simp only [dtConvertStr, dtRegex_render_date y m d ⟨m1, m2⟩ ⟨d1, d2'⟩, parseGmtOffset, intOfUDigits, gmtOffset,
     intOfAscii_d4 y (by omega), intOfAscii_d2 m (by omega), intOfAscii_d2 d (by omega), intOfAscii_none,
     bind, Except.bind, pure, Except.pure, hvd]
-  simp only [Nat.mul_zero, Int.mul_zero, Int.sub_zero, Int.zero_mul] at hf ⊢
+  simp only [Nat.mul_zero, Int.sub_zero, Int.zero_mul] at hf ⊢
   simp [validTime, hf]
 
 /-- reading a time text (`HHMMSS[.XXX][[offset]]`) -/
@@ -588,5 +588,292 @@ theorem tmConvertStr_render (tzs : List (Str × Int)) (h mi s : Nat) (ms : Optio
     simp only [Option.map_some, Option.some.injEq]
     have : ((T % 86400000000).toNat : Int) = T % 86400000000 := by omega
     omega
+
+/-! ### inversion: what an accepted text must look like -/
+
+theorem asciiDigit_eq_dch (c : Char) (h : isAsciiDigit c = true) : ∃ k, k < 10 ∧ c = dch k := by
+  simp only [isAsciiDigit, Bool.and_eq_true, decide_eq_true_eq] at h
+  obtain ⟨h1, h2⟩ := h
+  have h1' : 48 ≤ c.toNat := by
+    have := UInt32.le_iff_toNat_le.mp (Char.le_def.mp h1)
+    have e : ('0' : Char).val.toNat = 48 := by decide
+    rw [e] at this; exact this
+  have h2' : c.toNat ≤ 57 := by
+    have := UInt32.le_iff_toNat_le.mp (Char.le_def.mp h2)
+    have e : ('9' : Char).val.toNat = 57 := by decide
+    rw [e] at this; exact this
+  refine ⟨c.toNat - 48, by omega, ?_⟩
+  unfold dch
+  have : 48 + (c.toNat - 48) % 10 = c.toNat := by omega
+  rw [this, Char.ofNat_toNat]
+
+theorem dch_congr {a b : Nat} (h : a % 10 = b % 10) : dch a = dch b := by unfold dch; rw [h]
+
+theorem digitVal_some (c : Char) (k : Nat) (h : digitVal c = some k) : k < 10 ∧ c = dch k := by
+  unfold digitVal at h
+  split at h
+  · rename_i hc
+    have hd : isAsciiDigit c = true := by simp [isAsciiDigit, hc.1, hc.2]
+    obtain ⟨k', hk', hc'⟩ := asciiDigit_eq_dch c hd
+    have := digitVal_dch k'
+    rw [← hc'] at this
+    unfold digitVal at this
+    simp only [hc, and_self, if_true] at this
+    injection h with h
+    injection this with this
+    rw [Nat.mod_eq_of_lt hk'] at this
+    have : k = k' := by omega
+    subst this
+    exact ⟨hk', hc'⟩
+  · exact absurd h (by simp)
+
+theorem natOfAscii2_inv (a b : Char) (n : Nat) (h : natOfAscii [a, b] = some n) : n < 100 ∧ [a, b] = d2 n := by
+  simp only [natOfAscii, digitsVal] at h
+  cases ha : digitVal a with
+  | none => simp [ha] at h
+  | some ka =>
+    cases hb : digitVal b with
+    | none => simp [ha, hb] at h
+    | some kb =>
+      simp only [ha, hb, Option.some.injEq] at h
+      obtain ⟨la, ea⟩ := digitVal_some a ka ha
+      obtain ⟨lb, eb⟩ := digitVal_some b kb hb
+      subst h
+      refine ⟨by omega, ?_⟩
+      rw [ea, eb, d2]
+      congr 1
+      · exact dch_congr (by omega)
+      · congr 1; exact dch_congr (by omega)
+
+theorem natOfAscii4_inv (a b c d : Char) (n : Nat) (h : natOfAscii [a, b, c, d] = some n) :
+    n < 10000 ∧ [a, b, c, d] = d4 n := by
+  simp only [natOfAscii, digitsVal] at h
+  cases ha : digitVal a with
+  | none => simp [ha] at h
+  | some ka =>
+    cases hb : digitVal b with
+    | none => simp [ha, hb] at h
+    | some kb =>
+      cases hc : digitVal c with
+      | none => simp [ha, hb, hc] at h
+      | some kc =>
+        cases hd : digitVal d with
+        | none => simp [ha, hb, hc, hd] at h
+        | some kd =>
+          simp only [ha, hb, hc, hd, Option.some.injEq] at h
+          obtain ⟨la, ea⟩ := digitVal_some a ka ha
+          obtain ⟨lb, eb⟩ := digitVal_some b kb hb
+          obtain ⟨lc, ec⟩ := digitVal_some c kc hc
+          obtain ⟨ld, ed⟩ := digitVal_some d kd hd
+          subst h
+          refine ⟨by omega, ?_⟩
+          rw [ea, eb, ec, ed, d4]
+          congr 1
+          · exact dch_congr (by omega)
+          · congr 1
+            · exact dch_congr (by omega)
+            · congr 1
+              · exact dch_congr (by omega)
+              · congr 1; exact dch_congr (by omega)
+
+theorem intOfAscii_some_ok (t : Str) (n : Nat) (h : intOfAscii (some t) = .ok n) : natOfAscii t = some n := by
+  unfold intOfAscii at h
+  simp only at h
+  split at h
+  · rename_i k hk; injection h with h; rw [hk, h]
+  · exact absurd h (by simp)
+
+def sameHead (g g' : Groups) : Prop :=
+  g'.year = g.year ∧ g'.month = g.month ∧ g'.day = g.day ∧ g'.hour = g.hour ∧ g'.minute = g.minute ∧ g'.second = g.second
+
+theorem afterSeconds_inv (g g' : Groups) (r : Str) (h : afterSeconds g r = some g') :
+    sameHead g g' ∧ (r = [] ∨ ∃ c t, r = c :: t ∧ (c = '.' ∨ c = '[')) := by
+  unfold afterSeconds at h
+  simp only [] at h
+  split at h
+  · rename_i a b c t
+    refine ⟨?_, Or.inr ⟨'.', _, rfl, Or.inl rfl⟩⟩
+    split at h
+    · split at h
+      · injection h with h; subst h; exact ⟨rfl, rfl, rfl, rfl, rfl, rfl⟩
+      · rw [Option.map_eq_some_iff] at h
+        obtain ⟨x, _, hx⟩ := h
+        subst hx; exact ⟨rfl, rfl, rfl, rfl, rfl, rfl⟩
+      · exact absurd h (by simp)
+    · exact absurd h (by simp)
+  · split at h
+    · injection h with h; subst h; exact ⟨⟨rfl, rfl, rfl, rfl, rfl, rfl⟩, Or.inl rfl⟩
+    · rw [Option.map_eq_some_iff] at h
+      obtain ⟨x, _, hx⟩ := h
+      subst hx; exact ⟨⟨rfl, rfl, rfl, rfl, rfl, rfl⟩, Or.inr ⟨'[', _, rfl, Or.inr rfl⟩⟩
+    · exact absurd h (by simp)
+
+theorem timePart_inv (g g' : Groups) (r : Str) (h : timePart g r = some g') :
+    ∃ h1 h2 m1 m2 s1 s2 r', r = h1 :: h2 :: m1 :: m2 :: s1 :: s2 :: r'
+      ∧ g'.year = g.year ∧ g'.month = g.month ∧ g'.day = g.day
+      ∧ g'.hour = some [h1, h2] ∧ g'.minute = some [m1, m2] ∧ g'.second = some [s1, s2]
+      ∧ (r' = [] ∨ ∃ c t, r' = c :: t ∧ (c = '.' ∨ c = '[')) := by
+  unfold timePart at h
+  split at h
+  · rename_i h1 h2 m1 m2 s1 s2 r'
+    split at h
+    · obtain ⟨⟨a, b, c, d, e, f⟩, hs⟩ := afterSeconds_inv _ _ _ h
+      exact ⟨h1, h2, m1, m2, s1, s2, r', rfl, a, b, c, d, e, f, hs⟩
+    · exact absurd h (by simp)
+  · exact absurd h (by simp)
+
+theorem dtRegex_inv (s : Str) (g : Groups) (h : dtRegex s = some g) :
+    ∃ y1 y2 y3 y4 m1 m2 d1 d2 r, stripFinalNewline s = y1 :: y2 :: y3 :: y4 :: m1 :: m2 :: d1 :: d2 :: r
+      ∧ g.year = some [y1, y2, y3, y4] ∧ g.month = some [m1, m2] ∧ g.day = some [d1, d2]
+      ∧ ((r = [] ∧ g.hour = none ∧ g.minute = none ∧ g.second = none ∧ g.ms = none) ∨
+          ∃ h1 h2 mi1 mi2 s1 s2 r', r = h1 :: h2 :: mi1 :: mi2 :: s1 :: s2 :: r'
+            ∧ g.hour = some [h1, h2] ∧ g.minute = some [mi1, mi2] ∧ g.second = some [s1, s2]
+            ∧ (r' = [] ∨ ∃ c t, r' = c :: t ∧ (c = '.' ∨ c = '['))) := by
+  unfold dtRegex at h
+  split at h
+  · rename_i y1 y2 y3 y4 m1 m2 d1 d2 r heq
+    refine ⟨y1, y2, y3, y4, m1, m2, d1, d2, r, heq, ?_⟩
+    split at h
+    · simp only [] at h
+      split at h
+      · injection h with h; subst h
+        exact ⟨rfl, rfl, rfl, Or.inl ⟨rfl, rfl, rfl, rfl, rfl⟩⟩
+      · obtain ⟨h1, h2, mi1, mi2, s1, s2, r', hr, a, b, c, d, e, f, hs⟩ := timePart_inv _ _ _ h
+        exact ⟨a, b, c, Or.inr ⟨h1, h2, mi1, mi2, s1, s2, r', hr, d, e, f, hs⟩⟩
+    · exact absurd h (by simp)
+  · exact absurd h (by simp)
+
+theorem stripFinalNewline_cases (s : Str) : s = stripFinalNewline s ∨ s = stripFinalNewline s ++ ['\n'] := by
+  unfold stripFinalNewline
+  split
+  · rename_i r heq
+    right
+    have := congrArg List.reverse heq
+    simpa using this
+  · left; rfl
+
+/-! ### writing -/
+
+theorem pad2_eq (n : Nat) : pad2 n = d2 n := rfl
+theorem pad3_eq (n : Nat) : pad3 n = d3 n := rfl
+
+theorem natDigits_year (y : Nat) (h1 : 1000 ≤ y) (h2 : y < 10000) :
+    natDigits y = [y / 1000, y / 100 % 10, y / 10 % 10, y % 10] := by
+  obtain ⟨k, rfl⟩ : ∃ k, y = k + 3 := ⟨y - 3, by omega⟩
+  unfold natDigits
+  rw [natDigitsAux, if_neg (by omega), natDigitsAux, if_neg (by omega), natDigitsAux, if_neg (by omega),
+    natDigitsAux, if_pos (by omega)]
+  simp only [List.cons.injEq, and_true]
+  omega
+
+theorem digitChar_eq_dch (d : Nat) (h : d < 10) : digitChar d = dch d := by
+  unfold digitChar dch; rw [Nat.mod_eq_of_lt h]
+
+theorem pyStrNat_year (y : Nat) (h1 : 1000 ≤ y) (h2 : y < 10000) : pyStrNat y = d4 y := by
+  unfold pyStrNat
+  rw [natDigits_year y h1 h2]
+  simp only [List.map, d4]
+  rw [digitChar_eq_dch _ (by omega), digitChar_eq_dch _ (by omega), digitChar_eq_dch _ (by omega),
+    digitChar_eq_dch _ (by omega)]
+  congr 1
+  congr 1
+  · exact dch_congr (by omega)
+  · congr 1
+    · exact dch_congr (by omega)
+    · congr 1; exact dch_congr (by omega)
+
+theorem natDigits_small : ∀ n, n < 25 →
+    natDigits n ≠ [] ∧ (natDigits n).all (· < 10) = true ∧ hoursVal (natDigits n) = n
+    ∧ (natDigits n).map dch = pyStrNat n ∧ (natDigits n).length ≤ 2 := by decide +kernel
+
+theorem ord2ymd_year_ge (n : Nat) (h : 364878 ≤ n) : 1000 ≤ (ord2ymd n).1 := by
+  unfold ord2ymd
+  simp only []
+  generalize hr1 : (n - 1) % 146097 = r1
+  generalize ha : (n - 1) / 146097 = a
+  generalize hr2 : r1 % 36524 = r2
+  generalize hb : r1 / 36524 = b
+  generalize hr3 : r2 % 1461 = r3
+  generalize hc : r2 / 1461 = c
+  generalize hk : r3 % 365 = k
+  generalize he : r3 / 365 = e
+  have hb' : b ≤ 4 := by omega
+  have hc' : c ≤ 24 := by omega
+  have he' : e ≤ 4 := by omega
+  have ha' : 2 ≤ a := by omega
+  have f1 : a = 2 → 1 ≤ b := by omega
+  have f2 : a = 2 → b = 1 → c = 24 := by omega
+  have f3 : a = 2 → b = 1 → 3 ≤ e := by
+    intro h2 h1
+    have := f2 h2 h1
+    omega
+  split
+  · rename_i hsp
+    simp only [Bool.or_eq_true, beq_iff_eq] at hsp
+    simp only; omega
+  · rename_i hne
+    simp only [Bool.or_eq_true, beq_iff_eq, not_or] at hne
+    simp only; omega
+
+/-- the offset part the writer produces, structurally: always signed, hours without leading zeros,
+    `.MM` only when non-zero, the name as given -/
+def canonOff (offMin : Int) (name : Option Str) : OffText :=
+  ⟨some (decide (offMin < 0)), natDigits (offMin.natAbs / 60),
+   if offMin.natAbs % 60 != 0 then some (offMin.natAbs % 60) else none, name⟩
+
+theorem formatOffset_eq (offUs : Int) (name : Option Str)
+    (hr : -usPerDay < offUs ∧ offUs < usPerDay) :
+    formatOffset offUs name = (canonOff (offUs / 60000000) name).render := by
+  unfold usPerDay at hr
+  have hh : (offUs / 60000000).natAbs / 60 < 25 := by omega
+  obtain ⟨_, _, _, hmap, _⟩ := natDigits_small _ hh
+  unfold formatOffset canonOff OffText.render
+  simp only [hmap, pad2_eq]
+  by_cases hneg : offUs / 60000000 < 0 <;> by_cases hm : ((offUs / 60000000).natAbs % 60 != 0) = true <;>
+    cases name <;> simp [hneg, hm]
+
+theorem canonOff_minutesEast (offMin : Int) (name : Option Str) (hh : offMin.natAbs / 60 < 25) :
+    (canonOff offMin name).minutesEast = offMin := by
+  obtain ⟨_, _, hv, _, _⟩ := natDigits_small _ hh
+  unfold OffText.minutesEast canonOff
+  simp only [hv]
+  by_cases hm : (offMin.natAbs % 60 != 0) = true
+  · simp only [hm, if_true, Option.getD_some]
+    by_cases hneg : offMin < 0 <;> simp [hneg] <;> omega
+  · have : offMin.natAbs % 60 = 0 := by simpa using hm
+    simp only [hm, Bool.false_eq_true, if_false, Option.getD_none]
+    by_cases hneg : offMin < 0 <;> simp [hneg] <;> omega
+
+theorem canonOff_wf (offMin : Int) (name : Option Str) (hr : -720 ≤ offMin ∧ offMin ≤ 840)
+    (hname : ∀ n, name = some n → '\n' ∉ n) : (canonOff offMin name).wf = true := by
+  have hh : offMin.natAbs / 60 < 25 := by omega
+  have hme := canonOff_minutesEast offMin name hh
+  obtain ⟨h1, h2, _, _, _⟩ := natDigits_small _ hh
+  unfold OffText.wf
+  rw [hme]
+  simp only [canonOff, Bool.and_eq_true, decide_eq_true_eq]
+  refine ⟨⟨⟨⟨?_, h2⟩, ?_⟩, ?_⟩, hr.1, hr.2⟩
+  · cases hd : natDigits (offMin.natAbs / 60) with
+    | nil => exact absurd hd h1
+    | cons a r => rfl
+  · by_cases hm : (offMin.natAbs % 60 != 0) = true
+    · simp only [hm, if_true, decide_eq_true_eq]; omega
+    · simp [hm]
+  · cases name with
+    | none => rfl
+    | some n => simpa using hname n rfl
+
+theorem utcoffset_some (tz : Tz) (hr : -usPerDay < tz.offUs ∧ tz.offUs < usPerDay) :
+    utcoffset (some tz) = .ok (some tz.offUs) := by
+  have : ¬ (tz.offUs ≤ -usPerDay ∨ tz.offUs ≥ usPerDay) := by omega
+  simp [utcoffset, this]
+
+theorem formatDatetime_eq (timeOnly : Bool) (f b : Fields) (tz : Tz)
+    (hr : -usPerDay < tz.offUs ∧ tz.offUs < usPerDay)
+    (hb : fromUs (toUs f.year f.month f.day f.hour f.minute f.second f.us + 500) = .ok b) :
+    formatDatetime timeOnly f (some tz)
+      = .ok ((if timeOnly then strftimeHMS b else strftimeYmdHMS b) ++ '.' :: pad3 (b.us / 1000)
+              ++ '[' :: formatOffset tz.offUs tz.name ++ [']']) := by
+  simp only [formatDatetime, utcoffset_some tz hr, hb, bind, Except.bind, pure, Except.pure]
 
 end Ofx.DateTime
